@@ -391,7 +391,7 @@ fn main() {
 			name: "delivery-equivalence",
 			rule: "pair / line-of-3 worlds, traffic leaving pending HTLCs, force close by either side (told or silent) or none, chain script of mined candidate sets, runs of empty blocks, jumps to HTLC expiries, late claims and forks of depth 1..6 whose competing branch re-mines / delays / replaces by a conflicting spend / drops each removed transaction; 3-4 replicas: plain Listen, the eleven ConnectStyles switched per step, Confirm/Listen mixes (filtered, duplicated, split, best-block first or skipped, per-tx unconfirm, fork-point disconnect in one or several calls, lagging), and one that only ever sees the final chain. Non-trivial: a reorg removed >=1 channel transaction and replicas with different call schedules were compared at a common tip afterwards",
 			quick_cases: 800,
-			thorough_cases: 30_000,
+			thorough_cases: 24_000,
 			max_shrink: 40,
 		},
 		|| strat(13),
